@@ -8,7 +8,9 @@ EXPL = ("R16.1 no result of write_vectored / write_all_vectored / EntryIoStream:
         "Ok(0) leaves the loop with an error, Ok(n) advances by that very n before retrying, Interrupted retries without advancing, "
         "other errors are returned, success only when no bytes remain, and the io-slice list is rebuilt from the advanced slices on "
         "every iteration; R16.3 production sinks never unwrap/?-propagate stream results and write no non-counter state on error "
-        "arms; R16.4 a tee calls both inner streams on every path. Not decided: byte-exact slice arithmetic of advance_slices.")
+        "arms; R16.4 a tee calls both inner streams on every path; R16.5 (= R01.3) no branch of the background "
+        "drain loop derives from the result of writing an entry, and the consumer's error arms write only integer counters and never "
+        "re-insert: an error on one entry cannot stop, skip or repeat later ones. Not decided: byte-exact slice arithmetic of advance_slices.")
 
 IO_METHODS = [("Write", ("write_vectored", "flush", "write_all", "write")), ("EntryIoStream", ("next", "flush")),
               ("Format", ("format",)), ("SampledFormat", ("format_with_sample_rate",)), ("EntryIoStreamExt", ("report_error",))]
@@ -326,6 +328,13 @@ def run(ctx):
                 ok, why = exactly_once(b, [c.bb for c in sites])
                 ctx.check(ok, "R16.4", fnkey(b) + "#calls-%s" % f["name"], loc(b),
                           "tee `%s` does not call inner stream `%s` exactly once on every path (%s): one branch can miss entries after the other fails" % (it["name"], f["name"], why))
+    # ------------------------------------------------------------------------ R16.5 an error never changes what happens to later entries
+    # (the clause C16 shares with C01: same analysis, recorded here under its own rule id)
+    import rules.c01 as c01
+    from mq.report import RuleView
+    before = len(ctx.instances)
+    c01.run(RuleView(ctx, {"R01.3": "R16.5"}))
+    ctx.floor("R16.5", "error-independence obligations on the drain loop and its consumer", len([i for i in ctx.instances[before:] if i["rule"] == "R16.5"]), 4)
     return EXPL
 
 
